@@ -1004,7 +1004,9 @@ pub fn check_main(prop: &dyn Prop, tier: Tier, seed: u64) -> i32 {
         "wall_s": rr.wall_s,
         "violations": violations,
     });
-    let evdir = root.join("evidence");
+    let evdir = std::env::var("VP_EVIDENCE_DIR")
+        .map(PathBuf::from)
+        .unwrap_or_else(|_| root.join("evidence"));
     let _ = std::fs::create_dir_all(&evdir);
     let _ = std::fs::write(
         evdir.join(format!("{id}.json")),
